@@ -35,7 +35,13 @@ pub struct State {
     pub writes: usize,
     pub conds: Vec<Option<Box<dyn Fn() -> bool + Send>>>,
     pub deadlock: bool,
+    /// crash injection at atomic-step granularity: the logical thread (a process of its own in the
+    /// scenario) dies when it reaches its next yield point with a fuse of 0
+    pub fuse: Vec<Option<usize>>,
+    pub died: Vec<bool>,
 }
+/// panic payload of a logical thread that dies
+pub struct Died;
 pub static SCHED: Mutex<Option<State>> = Mutex::new(None);
 /// component-specific: which events are traced (all are yield points), what a `crit` record reports
 /// (kind, addr, width) -> is this access part of the traced model (yield point + trace line)?
@@ -190,10 +196,30 @@ fn pick(s: &mut State, me: Option<usize>) {
     s.current = Some(chosen);
 }
 
+/// the calling logical thread dies after `k` more visible steps (wherever that is: in the middle of an operation)
+pub fn arm_fuse(tid: usize, k: usize) {
+    SCHED.lock().unwrap().as_mut().unwrap().fuse[tid] = Some(k);
+}
+pub fn has_died(tid: usize) -> bool {
+    SCHED.lock().unwrap().as_ref().map(|s| s.died.get(tid).copied().unwrap_or(false)).unwrap_or(false)
+}
 fn yield_point(tid: usize) {
     let mut g = SCHED.lock().unwrap();
     {
         let s = g.as_mut().unwrap();
+        match s.fuse[tid] {
+            Some(0) => {
+                // the process dies here: nothing of it runs any more (no destructors with shared-memory effects
+                // exist in the components that use the fuse)
+                s.fuse[tid] = None;
+                s.died[tid] = true;
+                s.trace.push(format!("T{tid} cell died"));
+                drop(g);
+                std::panic::resume_unwind(Box::new(Died));
+            }
+            Some(k) => s.fuse[tid] = Some(k - 1),
+            None => {}
+        }
         s.steps += 1;
         if s.steps > MAX_STEPS {
             eprintln!("steptrace: step bound exceeded (livelock under this schedule?)");
@@ -329,6 +355,7 @@ pub fn execute(bodies: Vec<Box<dyn FnOnce(usize) + Send>>, schedule: Vec<usize>,
         current: None, status: vec![Status::NotStarted; n], schedule, pos: 0, decisions: vec![], trace: vec![], steps: 0,
         rng: seed, random, objects, exit_at_write: std::env::var("VERIF_EXIT_AT_WRITE").ok().and_then(|v| v.parse().ok()).unwrap_or(0), writes: 0,
         conds: (0..n).map(|_| None).collect(), deadlock: false,
+        fuse: vec![None; n], died: vec![false; n],
     });
     let mut handles = vec![];
     for (tid, body) in bodies.into_iter().enumerate() {
@@ -347,8 +374,10 @@ pub fn execute(bodies: Vec<Box<dyn FnOnce(usize) + Send>>, schedule: Vec<usize>,
                 g.as_mut().unwrap().status[tid] = Status::Running;
             }
             let r = std::panic::catch_unwind(std::panic::AssertUnwindSafe(|| body(tid)));
-            if r.is_err() {
-                record(tid, "PANIC".to_string());
+            if let Err(p) = r {
+                if !p.is::<Died>() {
+                    record(tid, "PANIC".to_string());
+                }
             }
             TID.with(|t| t.set(None));
             let mut g = SCHED.lock().unwrap();
